@@ -135,7 +135,24 @@ struct Ctx<'a> {
 
 impl Ctx<'_> {
     fn debug_check<C: Suite, T: std::fmt::Debug>(&mut self, v: &T, secrets: &[Scalar<C>]) {
-        for (alt, s) in [(false, format!("{v:?}")), (true, format!("{v:#?}"))] {
+        // every formatter flag a caller (or a logging macro) may pass: derived impls forward them to the fields
+        let renderings: Vec<(&str, String)> = vec![
+            ("", format!("{v:?}")),
+            (" (alternate)", format!("{v:#?}")),
+            (" ({:.8?})", format!("{v:.8?}")),
+            (" ({:.64?})", format!("{v:.64?}")),
+            (" ({:.200?})", format!("{v:.200?}")),
+            (" ({:#.128?})", format!("{v:#.128?}")),
+            (" ({:200?})", format!("{v:200?}")),
+            (" ({:<200.200?})", format!("{v:<200.200?}")),
+            (" ({:0200?})", format!("{v:0200?}")),
+            (" ({:+?})", format!("{v:+?}")),
+            (" ({:x?})", format!("{v:x?}")),
+            (" ({:X?})", format!("{v:X?}")),
+            (" ({:#x?})", format!("{v:#x?}")),
+            (" ({:#X?})", format!("{v:#X?}")),
+        ];
+        for (alt, s) in renderings {
             let lower = s.to_lowercase();
             let compact: String = lower.chars().filter(|c| !c.is_whitespace()).collect();
             for (k, sc) in secrets.iter().enumerate() {
@@ -147,8 +164,11 @@ impl Ctx<'_> {
                 let dec = enc.iter().map(|b| b.to_string()).collect::<Vec<_>>().join(",");
                 let decr = rev.iter().map(|b| b.to_string()).collect::<Vec<_>>().join(",");
                 self.o.count("debug_checked", 1);
-                if lower.contains(&hex::encode(&enc)) || lower.contains(&hex::encode(&rev)) || compact.contains(&dec) || compact.contains(&decr) {
-                    self.o.fail(format!("{}/debug-shows-secret", self.tag), format!("{}: Debug{} output contains secret scalar #{k}", self.ctx, if alt { " (alternate)" } else { "" }));
+                // also a long prefix of it (a "fingerprint" of 16+ hex digits is already most of a search space gone)
+                let pre = hex::encode(&enc[..8.min(enc.len())]);
+                let prer = hex::encode(&rev[..8.min(rev.len())]);
+                if lower.contains(&hex::encode(&enc)) || lower.contains(&hex::encode(&rev)) || compact.contains(&dec) || compact.contains(&decr) || lower.contains(&pre) || lower.contains(&prer) {
+                    self.o.fail(format!("{}/debug-shows-secret", self.tag), format!("{}: Debug{alt} output contains secret scalar #{k}", self.ctx));
                 }
             }
         }
